@@ -131,6 +131,21 @@ def findings_opt():
     # F13: a function whose body holds a try with a finally part and that returns a closure holding another try: "bad case" at -Q2+
     fj = _os.path.join(_os.path.dirname(_os.path.abspath(__file__)), "fixed_json", "F13_try_and_closure_try.json")
     out.append(_json.load(open(fj)))
+    # F16: two file-level record variables name one record (g9 := g2) after a function assigned g2 a new record; a field store
+    # through g9 is not seen when g2 is read (emerge pass, -Q2+)
+    R = ["rec", 0]
+    setter = {"name": "setg", "oname": "setg", "ps": ["p"], "pts": [SI], "rt": SI, "pure": False,
+              "body": {"e": "seq", "t": SI, "es": [
+                  {"e": "asg", "x": "g2", "v": {"e": "mkrec", "t": R, "args": [lit(SI, 9), lit(SI, -6), lit(SI, -9)]}}, var("p")]}}
+    out.append(prog("F16_file_level_record_alias_store", [
+        gvar("g2", R, {"e": "mkrec", "t": R, "args": [lit(SI, 7), lit(SI, 1), lit(SI, -9)]}),
+        stmt({"e": "call", "fi": 1, "args": [lit(SI, 1)]}),
+        gvar("g9", R, {"e": "mkrec", "t": R, "args": [lit(SI, 8), lit(SI, 9), lit(SI, 5)]}),
+        stmt({"e": "asg", "x": "g9", "v": var("g2")}),
+        stmt({"e": "rset", "r": var("g9"), "i": 3, "v": {"e": "rget", "r": var("g2"), "i": 2, "rt": 0}, "rt": 0}),
+        stmt(pr({"e": "rget", "r": var("g2"), "i": 3, "rt": 0}))],
+        funs=[setter], recs=[[SI, SI, SI]],
+        order=[["t", 0], ["f", 0], ["t", 1], ["t", 2], ["t", 3], ["t", 4], ["t", 5]]))
     # F15: a generator whose body calls (and discards the values of) a function returning several values that in turn calls an
     # operation of a parametrised domain: the compiler faults (segmentation violation) at -Q2+
     fj = _os.path.join(_os.path.dirname(_os.path.abspath(__file__)), "fixed_json", "F15_multi_value_call_discarded_in_generator.json")
